@@ -617,6 +617,9 @@ class CollapseAmbiguities(Transformer):
         return sum(options, [])
 
     def __default__(self, data, children_lists, meta):
+        # A child that is neither a tree nor a token (such as the None placeholder of an
+        # unmatched [..]) was not turned into a list of alternatives: it is its only alternative
+        children_lists = [c if isinstance(c, list) else [c] for c in children_lists]
         return [Tree(data, children, meta) for children in combine_alternatives(children_lists)]
 
     def __default_token__(self, t):
